@@ -64,7 +64,7 @@ SPELL = ["plain", "dot", "dotdot", "redundant", "updown", "abs", "abs_redundant"
 FORMS = ["let", "expr", "called_func"]
 PROBES = ["pos_" + p for p in ALL_POS] + ["fail_msg_site", "decoy_value_distinguishable", "three_spelling_same_file", "diamond",
                                          "back_edge_let", "back_edge_expr", "back_edge_called_func", "back_edge_at_position", "back_edge_in_module", "back_edge_in_callback", "cycle_len_1", "cycle_len_2", "cycle_len_3",
-                                         "back_edge_respelled", "include_site", "lib_level_site", "fault_with_decoy", "identical_twin_files", "back_edge_via_hof", "entry_respelled", "cwd_entered_through_symlink", "built_by_ucg_test", "same_name_in_importers_directory"]
+                                         "back_edge_respelled", "include_site", "lib_level_site", "fault_with_decoy", "identical_twin_files", "back_edge_via_hof", "entry_respelled", "cwd_entered_through_symlink", "built_by_ucg_test", "same_name_in_importers_directory", "library_is_a_symlink", "paths_differing_in_case_only"]
 DECOY_CWD = "decoy/d1/d2/d3"
 DIRSETS = [["", "lib"], ["", "lib", "lib/deep"], ["app", "lib"], ["app", "lib", "shared/x"], ["", "a", "a/b", "a/b/c"], ["app/svc", "lib", ""],
            ["", "stdcfg"], ["app", "stdx/inner"]]
@@ -152,13 +152,25 @@ def generate(rng, tier, idx):
     for j in range(1, n):
         if j not in reach:
             files[0]["sites"].append({"pos": "top_let", "kind": "import", "target": j, "spelling": "plain"})
+    if rng.chance(12) and len(files) >= 2:
+        # two files whose paths differ only in letter case (this is a case-sensitive file system): different files, different values
+        k = rng.between(1, len(files) - 1)
+        d_, b_ = os.path.split(files[k]["path"])
+        variant = (d_ + "/" if d_ else "") + (b_[0].upper() + b_[1:] if b_[0].islower() else b_[0].lower() + b_[1:])
+        if all(g["path"] != variant for g in files):
+            files.append({"path": variant, "uid": "CV" + rng.token(5), "sites": []})
+            files[0]["sites"].append({"pos": rng.choice(["top_let", "paren"]), "kind": "import", "target": len(files) - 1, "spelling": rng.choice(["plain", "dot"])})
+            world["case_variants"] = True
+            n = len(files)
     real_dirs = [d for d in dirs]
     if len(real_dirs) >= 2 and rng.chance(15):
         # byte-identical twin files in two directories, each importing the sibling `tbase.ucg` of its own directory
         # (anything that identifies a file by its text instead of its path mixes them up)
         dA, dB = rng.sample(real_dirs, 2)
         tw_uid = "TW" + rng.token(5)
-        pos, sp = pick_pos(), rng.choice(["plain", "dot"])
+        # (positions whose template embeds the expected value would make the two texts differ - or, for a linked twin, be wrong by construction)
+        pos = rng.choice([p_ for p_ in ALL_POS if p_ == "top_let" or "@X@" not in POS[p_]])
+        sp = rng.choice(["plain", "dot"])
         base_idx = len(files)
         for d in (dA, dB):
             files.append({"path": (d + "/tbase.ucg").lstrip("/"), "uid": "TB" + rng.token(5), "sites": []})
@@ -167,6 +179,8 @@ def generate(rng, tier, idx):
         for k in (0, 1):
             files[0]["sites"].append({"pos": rng.choice(["top_let", "paren", "tuple_field"]), "kind": "import", "target": base_idx + 2 + k, "spelling": "plain"})
         world["twins"] = True
+        world["twin_pair"] = [base_idx + 2, base_idx + 3]
+        world["twin_link_wanted"] = rng.chance(45)
         n = len(files)
     if rng.chance(20):
         # name collision: a library in another directory imports its sibling with a bare let-import; a file of the same name,
@@ -207,6 +221,17 @@ def generate(rng, tier, idx):
     elif mode == "fail_msg":
         j = rng.between(1, n - 1)
         world["fail_site"] = {"target": j, "spelling": pick_spell(), "kind": "import", "fmt": rng.chance(50)}
+    if world.get("twin_link_wanted"):
+        # ... not a copy but a symbolic link to the first twin (a shared template): the file that contains the import expression is the
+        # one that was named, so its directory - not the link target's - decides what `tbase.ucg` means.  Only when nothing else was
+        # attached to either twin afterwards (the two must stay byte-identical by construction).
+        a_, b_ = world["twin_pair"]
+        be_ = world["back_edge"]
+        untouched = (len(files[a_]["sites"]) == 1 and len(files[b_]["sites"]) == 1 and files[a_]["sites"][0]["pos"] == files[b_]["sites"][0]["pos"]
+                     and not (be_ and (be_["from"] in (a_, b_) or be_["to"] in (a_, b_)))
+                     and not (world["fault"] and world["fault"]["target"] in (a_, b_)))
+        if untouched:
+            files[b_]["symlink_to"] = a_
     return world
 
 
@@ -411,7 +436,14 @@ def execute(world, sb, res):
     for d in world["dirs"]:
         sb.mkdir("proj/" + d)
     for i, f in enumerate(files):
+        if f.get("symlink_to") is not None:
+            tgt = files[f["symlink_to"]]["path"]
+            sb.symlink("proj/" + f["path"], os.path.relpath(tgt, os.path.dirname(f["path"]) or "."))
+            res.probe("library_is_a_symlink")
+            continue
         sb.write("proj/" + f["path"], render_file(world, i, proj_abs, ids, target_value))
+    if world.get("case_variants"):
+        res.probe("paths_differing_in_case_only")
     for d in world["data"]:
         sb.write("proj/" + d["path"], d["uid"])
     for k, ip in enumerate(world.get("intruders", [])):
